@@ -24,7 +24,7 @@ from props._stores_util import (Interner, SEGMENTS, deep, from_json_cfg, gen_cfg
 PROP = "C17"
 READY = True
 DRIVER = "dm_stores"
-LEAN_MODULES = ["DaskModel.Props.C17", "DaskModel.Props.C17b", "DaskModel.Props.C17c"]
+LEAN_MODULES = ["DaskModel.Props.C17", "DaskModel.Props.C17b", "DaskModel.Props.C17c", "DaskModel.Props.C17x"]
 TABLES = ["ConfigTables"]
 CASE_TIMEOUT_S = 10
 LEVEL_TEXT = (
@@ -970,9 +970,94 @@ def case_expand(ctx, inp):
                 os.environ[k] = v
 
 
+# ------------------------------------------------------------------------------------------------------------
+# extension round: update(priority="new-defaults") against the specification `ndExpect` (Props/C17x.lean)
+# ------------------------------------------------------------------------------------------------------------
+def _raw_at(d, path):
+    """literal walk; KeyError (the class) when the walk leaves the tree"""
+    for p in path:
+        if not isinstance(d, dict) or p not in d:
+            return KeyError
+        d = d[p]
+    return d
+
+
+def _canon_path(dc, old, path):
+    """the position update()/get() look at in `old`: every segment through canonical_name at its level"""
+    out, cur = [], old
+    for p in path:
+        k = dc.canonical_name(p, cur) if isinstance(cur, dict) else p
+        out.append(k)
+        cur = cur[k] if isinstance(cur, dict) and isinstance(cur.get(k), dict) else {}
+    return out
+
+
+def case_ndspec(ctx, inp):
+    """function level: update(old, new, priority='new-defaults', defaults=d) vs the model AND vs the specification
+    `ndExpect` at every scalar path of `new` (what update_new_defaults_spec proves of the model), plus the documented
+    rule evaluated directly in Python (value still the default -> replaced; changed / no default -> kept; new -> added)"""
+    import dask.config as dc
+    it = Interner()
+    old = from_json_cfg(inp["old"])
+    new = from_json_cfg(inp["new"])
+    dflt = None if inp.get("defaults") is None else from_json_cfg(inp["defaults"])
+    old0, new0, dflt0 = deep(old), deep(new), deep(dflt)
+    leaves = [(list(path), v) for path, v in _leaf_paths(new0)]
+    model = ctx.lean(Sym("cfg-nd-expect"), it.enc(old0), it.enc(new0), None if dflt is None else it.enc(dflt),
+                     [[path, it.leaf(v)] for path, v in leaves])
+    clean, mres, mexp = model[0], model[1], model[2]
+    try:
+        res = dc.update(old, new, priority="new-defaults", defaults=dflt)
+        impl = [Sym("ok"), it.enc(res)]
+    except (TypeError, AttributeError):
+        impl = [Sym("raised")]
+        res = None
+    except Exception as e:  # noqa: BLE001 - nothing else is a documented way out of update()
+        ctx.fail("update(priority='new-defaults') raised an unexpected exception", observed=repr(e))
+        return
+    ctx.eq("update new-defaults", mres, impl)
+    if res is None:
+        ctx.branch("nd-raised")
+        return
+    if ordered(new) != ordered(new0) or (dflt0 is not None and ordered(dflt) != ordered(dflt0)):
+        ctx.fail("update(priority='new-defaults') modified `new` or `defaults`", observed=[new, dflt], expected=[new0, dflt0])
+    if clean is not True:
+        ctx.branch("nd-unclean-new-skipped")     # outside the theorem's hypothesis (both spellings inside one mapping of new)
+        return
+    for (path, v), (mcanon, mwant) in zip(leaves, mexp):
+        try:
+            got = dc.get(".".join(path), config=res)
+        except (KeyError, TypeError) as e:
+            ctx.fail("update(priority='new-defaults'): a key of `new` cannot be read from the result",
+                     observed=[path, repr(e)])
+            continue
+        cpath = _canon_path(dc, old0, path)
+        ctx.eq("canonical path (model vs canonical_name walk)", mcanon, cpath)
+        # (1) the theorem's statement, on the real code
+        ctx.eq("new-defaults specification ndExpect vs get(update(...))", mwant, it.enc(got))
+        # (2) the documented rule, straight from the arguments
+        ov = _raw_at(old0, cpath)
+        dv = _raw_at(dflt0, cpath) if isinstance(dflt0, dict) else KeyError
+        if ov is KeyError:
+            want, br = v, "nd-new-key-added"
+        elif dv is not KeyError and dv == ov:
+            want, br = v, "nd-default-replaced"
+        else:
+            want, br = ov, ("nd-user-value-kept" if dv is not KeyError else "nd-no-default-kept")
+        if ordered(got) != ordered(want):
+            ctx.fail("update(priority='new-defaults'): " + br + " violated", observed=[path, repr(got)], expected=repr(want))
+        ctx.branch(br)
+        if len(path) >= 3:
+            ctx.branch("nd-depth-3+")
+        if cpath != path:
+            ctx.branch("nd-other-spelling-in-old")
+        if isinstance(ov, dict):
+            ctx.branch("nd-scalar-meets-mapping")
+
+
 CASES = {"set": case_set, "prog": case_prog, "get": case_get, "update": case_update, "merge": case_merge,
          "env": case_env, "glue": case_glue, "alias": case_alias, "hist": case_hist, "depr": case_depr,
-         "files": case_files, "expand": case_expand}
+         "files": case_files, "expand": case_expand, "ndspec": case_ndspec}
 
 # ------------------------------------------------------------------------------------------------------------
 # generators
@@ -1124,6 +1209,79 @@ def _exhaustive_histories():
                 yield "hist", {"vars": vs, "ops": [list(op) for op in ops]}
 
 
+SEG_ND = ["a", "b", "c", "x", "a-b", "a_b", "b-c", "b_c", "a_b_c", "a-b-c"]
+
+
+def _nd_edit(rng, d, depth, kind):
+    """a copy of the defaults tree `d` after edits: kind 'user' = what a user did to the configuration,
+    kind 'new' = the next version of the defaults"""
+    out = {}
+    for k, v in d.items():
+        r = rng.random()
+        if r < 0.08:
+            continue                                              # entry dropped
+        kk = _alt(k) if rng.random() < 0.15 else k                # same name, other spelling
+        if kk in out or _alt(kk) in out:
+            kk = k
+            if kk in out or _alt(kk) in out:
+                continue
+        if isinstance(v, dict):
+            if r < 0.14:
+                out[kk] = gen_leaf_plain(rng)                     # mapping became a scalar
+            else:
+                out[kk] = _nd_edit(rng, v, depth - 1, kind)
+        elif r < 0.14 and depth > 1:
+            out[kk] = gen_cfg(rng, depth=depth - 1, width=2, segs=SEG_ND, both_spellings=0.0, leaf=gen_leaf_plain)
+        elif r < (0.45 if kind == "user" else 0.6):
+            out[kk] = rng.choice([gen_leaf_plain(rng), v + 10 if isinstance(v, int) else 3])   # value changed
+        else:
+            out[kk] = v
+    for _ in range(rng.choice([0, 0, 1, 2])):                     # entries only this side has
+        k = rng.choice(SEG_ND)
+        if k in out or _alt(k) in out:
+            continue
+        out[k] = gen_cfg(rng, depth=depth - 1, width=2, segs=SEG_ND, both_spellings=0.0, leaf=gen_leaf_plain) \
+            if depth > 1 and rng.random() < 0.4 else gen_leaf_plain(rng)
+    return out
+
+
+def _gen_nd(rng):
+    depth = rng.choice([2, 3, 3, 4, 5])
+    base = gen_cfg(rng, depth=depth, width=3, segs=SEG_ND, both_spellings=0.0, leaf=gen_leaf_plain)
+    old = _nd_edit(rng, base, depth, "user")
+    new = _nd_edit(rng, base, depth, "new")
+    r = rng.random()
+    if r < 0.7:
+        dflt = base
+    elif r < 0.8:
+        dflt = _nd_edit(rng, base, depth, "user")                 # partial / respelled / differently shaped defaults
+    elif r < 0.86:
+        dflt = {}
+    elif r < 0.92:
+        dflt = None
+    else:
+        dflt = gen_cfg(rng, depth=2, width=3, segs=SEG_ND, leaf=gen_leaf_plain)
+    if rng.random() < 0.04 and new:
+        k = rng.choice(list(new))
+        if _alt(k) != k:
+            new[_alt(k)] = 1                                      # both spellings inside `new`: outside the hypothesis
+    return {"old": old, "new": new, "defaults": dflt}
+
+
+def _directed_nd():
+    d = {"a-b": {"x": 1, "y": 2}, "q": 0}
+    yield "ndspec", {"old": {"a-b": {"x": 1, "y": 7}, "q": 0},
+                     "new": {"a_b": {"x": 10, "y": 20, "z": 30}, "q": 5, "r": 6}, "defaults": d}
+    yield "ndspec", {"old": {"a-b": {"x": 1}}, "new": {"a-b": {"x": 10}}, "defaults": {"a_b": {"x": 1}}}
+    yield "ndspec", {"old": {"x": 1, "y": {"a": 2}}, "new": {"x": 2, "y": {"a": 3, "b": 3}}, "defaults": {"x": 0, "y": {"a": 2}}}
+    yield "ndspec", {"old": {"a": {"b": {"c": {"x": 1, "b": 2}}}}, "new": {"a": {"b": {"c": {"x": 5, "b": 6, "a": 7}}}},
+                     "defaults": {"a": {"b": {"c": {"x": 1, "b": 3}}}}}
+    yield "ndspec", {"old": {"a": 1, "b": {"c": 1}}, "new": {"a": {"x": 2}, "b": 3}, "defaults": {"a": 1, "b": {"c": 1}}}
+    yield "ndspec", {"old": {"a": None, "b": {}}, "new": {"a": {"x": 2}, "b": {"c": {"x": 1}}}, "defaults": {"a": None}}
+    yield "ndspec", {"old": {"a": {"x": 1}}, "new": {"a": {"x": 2}}, "defaults": {"a": 5}}      # defaults.get on an int: raises
+    yield "ndspec", {"old": {"a": {"x": 1}}, "new": {"a": {"x": 2}}, "defaults": {"a": 0}}      # falsy scalar: no defaults below
+
+
 def generate(ctx):
     from props._stores_util import ensure_budget
     ensure_budget(ctx, quick_scale=2.0)
@@ -1174,6 +1332,9 @@ def generate(ctx):
             if rng.random() < 0.5:
                 _overlay(dflt, old, rng)
         yield "update", {"old": old, "new": new, "priority": prio, "defaults": dflt}
+    yield from _directed_nd()
+    for _ in range(ctx.n(250, 3000)):
+        yield "ndspec", _gen_nd(rng)
     for _ in range(ctx.n(200, 2000)):
         yield "merge", {"dicts": [gen_cfg(rng, segs=SEG_UPD) for _ in range(rng.randint(0, 4))]}
     # identities: function level (same input distribution as `update` / `merge`) and histories
